@@ -74,7 +74,12 @@ class LbWorld(object):
     return ep.port - 1000 if ep is not None else -1
 
   def heap_nodes(self):
-    return list(self.lb._heap[1:])
+    nodes = list(self.lb._heap[1:])
+    bad = [n for n in nodes if not hasattr(n.channel, 'serial')]
+    if bad and not getattr(self, '_corrupt', False):
+      self._corrupt = True
+      self.v('LB.exception', 'the balancer\'s internal placeholder node (endpoint %r) appears among its members' % (bad[0].endpoint,))
+    return [n for n in nodes if hasattr(n.channel, 'serial')]
 
   def outstanding(self, serial):
     return sum(1 for r in self.requests if r['serial'] == serial and not r['done'])
@@ -110,6 +115,12 @@ class LbWorld(object):
     try:
       getattr(self, '_op_' + name)(*op[1:-1] if isinstance(op[-1], list) else op[1:])
       vloop.run_ready()
+    except world.Divergence:
+      raise
+    except Exception as e:  # noqa
+      # in the real stack this exception would escape into the greenlet that delivered the event (a reply, a
+      # notification); here the harness delivers it, so it is recorded instead
+      self.v('LB.exception', 'the balancer raised %s: %s while handling %r' % (type(e).__name__, e, op))
     finally:
       world.set_chooser(None)
     self._after_step(name, op)
@@ -145,6 +156,9 @@ class LbWorld(object):
                % (rid, len(before), resp and resp[0][1].error))
       elif not resp or not isinstance(resp[0][1].error, NoMembersError):
         self.v('C03.no-members', 'no members, but request %d did not fail at once with NoMembersError: %r' % (rid, resp))
+      elif self.members and not self.queued:
+        self.v('C03.no-members', 'request %d failed with NoMembersError although the server set has members %r (active %r, idle %r)'
+               % (rid, sorted(self.members), self.active_eps(), self.idle_eps()), kind=self.kind)
       self.requests.append({'rid': rid, 'serial': None, 'done': True, 'stack': stack})
       return
     serial = got[0][1]
@@ -520,17 +534,26 @@ def build(params, hist):
     world.SHIMS['lbbase'].shuffle_perms = True
   w = LbWorld(params)
   for op in hist:
-    if w.viol:
+    if _own(params, w.viol):
       break
     w.apply(op)
   return w
+
+
+def _own(params, viol):
+  """Violations of the clauses the running check reports (a state that only violates a sibling property's clause is
+  still explored further, so that this property's consequences of the same defect are reached)."""
+  pre = tuple(params.get('prefixes') or ())
+  if not pre:
+    return list(viol)
+  return [v for v in viol if v['clause'].startswith(pre)]
 
 
 def expand(params, hist):
   from . import bfs
   w = build(params, hist)
   out = {'key': w.key(), 'children': [], 'violations': list(w.viol), 'builds': 1}
-  if w.viol:
+  if _own(params, w.viol):
     return out
   for op in w.enabled():
     def apply_fn(pfx, op=op):
@@ -543,7 +566,7 @@ def expand(params, hist):
       k2 = w2.key()
       if params.get('probe'):
         w2.probe()
-      out['children'].append({'op': full, 'key': k2, 'violations': _dedup(w2.viol), 'terminal': bool(w2.viol)})
+      out['children'].append({'op': full, 'key': k2, 'violations': _dedup(w2.viol), 'terminal': bool(_own(params, w2.viol))})
   return out
 
 
